@@ -31,7 +31,7 @@ import (
 
 func init() {
 	register(&Check{ID: "C20", Level: "exploration",
-		Rule: "race detector + pool/ownership sanitizers over (A) end-to-end stress on all listeners/upstreams with abandoned client connections, failing upstreams, tiny cache with injected delays, quarantine on and off, and (B) in-process exchanges on every upstream transport with context deadlines of 0-2.5 ms against a 0-3 ms server that closes 15% of the connections after a reply (retries on reused connections; the server must only ever receive well-formed queries that were asked), (C) the in-process cache stress, (D) the hostile-decoder workload of C01 judged for ownership reports only (its inputs count as distinct cases); " +
+		Rule: "race detector + pool/ownership sanitizers over (A) end-to-end stress on all listeners/upstreams with abandoned client connections, failing upstreams, tiny cache with injected delays, quarantine on and off, and (B) in-process exchanges on every upstream transport with context deadlines of 0-2.5 ms against a 0-3 ms server that closes 15% of the connections after a reply (retries on reused connections; the server must only ever receive well-formed queries that were asked), (C) the in-process cache stress, (D) the hostile-decoder workload of C01 judged for ownership reports only (its inputs count as distinct cases), (E) keys and values whose buffers the caller overwrites and releases right after MemoryCache.Store (every key must be found again, unchanged); " +
 			"one evaluation = one request/exchange executed under the sanitizers; distinct non-trivial = distinct (workload, listener-or-transport, outcome) cells exercised",
 		Run: runC20})
 	children["c20tr"] = c20TransportChild
@@ -215,6 +215,8 @@ func runC20(c *Ctx) {
 	c.sigFilter = nil
 	// ---- (C) in-process cache: large values overwritten while readers are delayed between lookup and copy
 	c07Stress(c)
+	// ---- (E) the cache keeps nothing that belongs to its caller: key and value buffers are recycled right after Store
+	c07CallerBuffers(c)
 	c.Ev.Sample(map[string]any{"workload": "e2e-quarantine", "listeners": allListeners, "abandon_probability": 0.08, "cache_bytes": 48 * 1024, "delay_point": "memcache.get=sleep(300us,25%)"})
 	c.Ev.Sample(map[string]any{"workload": "transports", "deadline_ms": "0-2.5", "server_delay_ms": "0-3", "schemes": c20Schemes})
 	_ = proxyproc.FreePorts
